@@ -51,10 +51,21 @@ def runOP (args : List String) : String :=
       let allowU := au == "1"
       let allowF := af == "1"
       let pos := if pn == "~" then none else unhex pn
-      let payload := toks.filterMap (fun t => match t.splitOn ":" with | [_, h] => unhex h | _ => none)
+      let payload := toks.filterMap (fun t => match t.splitOn ":" with | ["N", _] => none | ["J", _] => none | [_, h] => unhex h | _ => none)
+      let junk := toks.filterMap (fun t => match t.splitOn ":" with | ["J", h] => unhex h | _ => none)
+      let argcGiven := (toks.filterMap (fun t => match t.splitOn ":" with | ["N", k] => k.toNat? | _ => none)).head?
       match mode with
-      | "a" => match parseArgv c allowU allowF pos payload with
-        | .ok p => s!"{showValues p.values}|R:{",".intercalate (p.remaining.map hex)}"
+      | "a" =>
+        -- the real entry point: argv = "prog", the tokens, a null pointer, the junk cells; argc as given (1..count) or the real count
+        let cells : List (Option (List Nat)) := some ("prog".toList.map Char.toNat) :: (payload.map some ++ none :: junk.map some)
+        let argc0 := match argcGiven with
+          | some k => if 1 ≤ k && k ≤ payload.length + 1 then k else payload.length + 1
+          | none => payload.length + 1
+        match cmdLine c allowU allowF pos argc0 cells with
+        | .ok (p, argc, cells') =>
+          let rem := ((cells'.take argc).drop 1).filterMap id
+          let vec := cells'.map (fun x => match x with | some t => hex t | none => "~")
+          s!"{showValues p.values}|R:{",".intercalate (rem.map hex)}|V:{",".intercalate vec}"
         | .error e => showErr e
       | "s" => match parseString c allowU allowF pos (payload.headD []) with
         | .ok p => s!"{showValues p.values}|R:"        -- parseCommandString does not report the remaining tokens
